@@ -175,10 +175,53 @@ CheckReport(e) ==
      /\ Rep(e.id, "Report.TextFateEqualsJson", rp.text_ok)
      /\ Rep(e.id, "Report.MinimalEqualsJson", rp.minimal_ok)
 
+\* ---- per-adapter statistics (C20) ----
+\* observed per adapter: [id, fpresent, fmatches, fhist, bpresent, bmatches, bhist, badj, total, onrc,
+\*                        franges, fnum, fden, feff, branges, bnum, bden, beff]; hist: Seq of <<len, errors, count>>
+RangeAllowed(ranges, L) ==         \* number of errors the reported ranges allow at length L
+  Cardinality({i \in 1..Len(ranges) : ranges[i] < L})
+RangesOK(ranges, num, den, eff) ==
+  ranges = <<>> \/ (/\ ranges[Len(ranges)] = eff
+                   /\ \A L \in 1..eff : RangeAllowed(ranges, L) = (L * num) \div den)
+
+CheckStatsSide(e, side, obsList, Ms) ==
+  LET n == Len(e.reads)
+      all == UNION {{<<k, x>> : x \in ReadTally(IF side = 1 THEN Ms[k].ms1 ELSE Ms[k].ms2,
+                                                IF side = 1 THEN Ms[k].s1 ELSE Ms[k].s2)} : k \in 1..n}
+      cnt(ad, end, len, errors) ==
+        Cardinality({y \in all : y[2][2].ad = ad /\ y[2][2].end = end /\ y[2][2].len = len /\ y[2][2].errors = errors})
+      endTotal(ad, end) == Cardinality({y \in all : y[2][2].ad = ad /\ y[2][2].end = end})
+      adjCnt(ad, c) == Cardinality({y \in all : y[2][2].ad = ad /\ y[2][2].end = "b" /\ y[2][2].adj = c})
+      keys(ad, end) == {<<y[2][2].len, y[2][2].errors>> : y \in {z \in all : z[2][2].ad = ad /\ z[2][2].end = end}}
+      histOK(ad, end, hist) ==
+        /\ {<<hist[i][1], hist[i][2]>> : i \in 1..Len(hist)} = keys(ad, end)
+        /\ \A i \in 1..Len(hist) : hist[i][3] = cnt(ad, end, hist[i][1], hist[i][2])
+      rcCount(ad) == Cardinality({<<k, j>> \in (1..n) \X (1..8) :
+                                    LET ms == IF side = 1 THEN Ms[k].ms1 ELSE Ms[k].ms2 IN
+                                    Ms[k].isrc /\ j <= Len(ms) /\ ms[j].ad = ad})
+      tag == IF side = 1 THEN "Stats1." ELSE "Stats2."
+  IN \A i \in 1..Len(obsList) :
+       LET o == obsList[i] IN
+       /\ RepK(e.id, tag \o "MatchesEqualTally", i,
+               /\ o.fmatches = endTotal(o.id, "f") /\ o.bmatches = endTotal(o.id, "b")
+               /\ o.total = o.fmatches + o.bmatches)
+       /\ RepK(e.id, tag \o "HistogramByLengthAndErrors", i, histOK(o.id, "f", o.fhist) /\ histOK(o.id, "b", o.bhist))
+       /\ RepK(e.id, tag \o "AdjacentBases", i,
+               o.badj = <<adjCnt(o.id, 65), adjCnt(o.id, 67), adjCnt(o.id, 71), adjCnt(o.id, 84), adjCnt(o.id, 0)>>)
+       /\ RepK(e.id, tag \o "OnReverseComplementCount", i, o.onrc < 0 \/ o.onrc = rcCount(o.id))
+       /\ RepK(e.id, tag \o "AllowedErrorsAreFloorOfLTimesRate", i,
+               RangesOK(o.franges, o.fnum, o.fden, o.feff) /\ RangesOK(o.branges, o.bnum, o.bden, o.beff))
+
+CheckStats(e) ==
+  LET n == Len(e.reads)
+      Ms == [k \in 1..n |-> Run(e.cfg, e.reads[k].table, e.reads[k].in1, e.reads[k].in2)]
+  IN CheckStatsSide(e, 1, e.stats1, Ms) /\ (e.cfg.paired => CheckStatsSide(e, 2, e.stats2, Ms))
+
 Check(e) ==
   LET miss == \E k \in 1..Len(e.reads) : Needs(e.cfg, e.reads[k].table, e.reads[k].in1, e.reads[k].in2) # {}
   IN /\ \A k \in 1..Len(e.reads) : CheckRead(e, k)
      /\ (Has(e, "report") /\ ~miss) => CheckReport(e)
+     /\ (Has(e, "stats") /\ ~miss) => CheckStats(e)
 
 Init == l = 1
 \* (Check is compared with TRUE so that TLC evaluates it as one expression with short-circuit
